@@ -19,8 +19,8 @@ sys.path.insert(0, ROOT)
 from fimmc.engine import Report, replay_e1, _tuplify      # noqa: E402
 from fimmc.canon import jsonable, digest                   # noqa: E402
 
-EVID_DIR = os.path.join(ROOT, 'evidence')
-REPLAY_DIR = os.path.join(ROOT, 'replays')
+EVID_DIR = os.environ.get('FIMMC_EVIDENCE_DIR') or os.path.join(ROOT, 'evidence')
+REPLAY_DIR = os.environ.get('FIMMC_REPLAY_DIR') or os.path.join(ROOT, 'replays')
 KNOWN = os.path.join(ROOT, 'known_findings.json')
 SCHEMA = '/root/.vp/EVIDENCE.schema.json'
 
